@@ -928,6 +928,11 @@ def _single_stub(log, cfg=None):
         b.setdefault("cache", None)
         log.append((b, I.seq, list(I.events), [c[0] for c in I.calls]))
         t = b["tower"]
+        for role, obj, cls in (("config", b["config"], "BLDFMConfig"), ("tower", t, "TowerConfig")):
+            oc = obj.attrs.get("__class__") if isinstance(obj, Opaque) else None
+            if oc is not None and oc[1].name != cls and oc[1].name in ("BLDFMConfig", "TowerConfig", "DomainConfig", "MetConfig", "SolverConfig"):
+                import interp as _I
+                raise _I.raise_exc("AttributeError", node, "run_bldfm_single is handed a %s as its %s" % (oc[1].name, role))
         tn = t.attrs["name"] if isinstance(t, Opaque) and "name" in t.attrs else alg.sym("?tower")
         flux = b["surface_flux"]
         if flux is None:
@@ -1114,6 +1119,9 @@ def driver_obligations(P):
         def pool_map(I, args, kwargs, node):
             f, tasks = args[0], args[1]
             pool_calls.append(("map", f))
+            if isinstance(f, (Tup, GenList, PyList)) or (isinstance(f, Expr)):
+                import interp as _I
+                raise _I.raise_exc("TypeError", node, "Executor.map is handed %r as the function to call" % (f,))
             if kwargs.get("chunksize") is not None:
                 chunk_checks.append((at_least_one(I, kwargs["chunksize"]), repr(kwargs["chunksize"])[:80], node.lineno))
             if not isinstance(tasks, Tup):
